@@ -1,6 +1,6 @@
 import vlib
 
-THEORY = ["theories/Mesh/Pure.v", "theories/Mesh/PureLemmas.v", "theories/Mesh/PureProofs.v", "theories/Mesh/Case.v", "theories/Mesh/GenWf.v", "theories/Mesh/GenIdx.v", "theories/Mesh/GenIdxProofs.v", "theories/Mesh/GenCompose.v"]
+THEORY = ["theories/Mesh/Pure.v", "theories/Mesh/PureLemmas.v", "theories/Mesh/PureProofs.v", "theories/Mesh/Case.v", "theories/Mesh/GenWf.v", "theories/Mesh/GenIdx.v", "theories/Mesh/GenIdxProofs.v", "theories/Mesh/GenCompose.v", "theories/Mesh/GenIntern.v"]
 
 CFG = {
     "id": "C02", "harness": "c02",
@@ -8,34 +8,39 @@ CFG = {
     "prop_file": "theories/Properties/C02.v",
     "theory_files": THEORY,
     "level_text": "Coq theorems: every operation of the pure mesh model (Mesh/Pure.v: append, unweld, remove-unreferenced, "
-                  "remove-null-faces, flip, to-point-cloud, filters, crop, split, weld, repeat, set-indices/attribute/"
-                  "materials under their side conditions, translate/scale/rotate/TRS/centre) maps well-formed meshes to "
+                  "remove-null-faces, flip, to-point-cloud, filters, crop, split, weld, repeat, slice-by-plane (both halves), set-indices/attribute/"
+                  "materials under their side conditions, translate/scale/rotate/TRS/centre/scale-along-normal) maps well-formed meshes to "
                   "well-formed meshes or a declared failure, never a crash, for every input mesh and parameter (step_wf), and "
-                  "therefore every history of operations does (run_wf, induction over the history); wf implies every "
+                  "therefore every history of operations does (run_wf, induction over the history); an earlier result is never changed by a "
+                  "later operation (results_stay_wellformed: the pool only grows); wf implies every "
                   "accessor stays in range; the primitives' index formulas (sphere, unwelded sphere, hemisphere, cylinder, "
                   "cube; proved in range for every admissible count under C18) and the fan (Circle, Cone) and tube (extrude.polygon) "
                   "index models of Mesh/GenIdx.v give well-formed meshes for every count (wf_generators_primitives, "
-                  "wf_generators_fan_tube, wf_generators_quad_ribbon_shape, wf_generators_composed; fan/tube index lists are compared with the implementation's on every run). "
+                  "wf_generators_fan_tube, wf_generators_quad_ribbon_shape, wf_generators_composed; fan/tube/quad/ribbon/shape index lists are compared with the implementation's on every run); "
+                  "marching cubes and Bowyer-Watson are modelled by the way their meshes are assembled (vertex interning per block, Append fold, weld, scale; "
+                  "super-triangle clean-up: wf_generators_marching_triangulation, for every geometric decision), with the observable consequences (no unreferenced "
+                  "vertex; one vertex per input point) compared on every run. "
                   "The model is tied to the Go code on every run by executing the implementation on random well-formed meshes "
                   "(histories of depth <= 4) and evaluating model = implementation in Coq; the boolean well-formedness test wfb "
                   "(proved equivalent to wf) is applied directly to every mesh the implementation returns, including the output "
                   "of every geometry generator (primitives, extrusions, repeat, marching cubes, triangulation) over fixed "
                   "corner counts, a window of the exhaustive small counts and sampled larger parameterisations",
-    "level_note": "Generators other than the five primitives families of C18 and the fan/tube models (quad, extrude.Line/Shape, "
-                  "repeat.* transforms, marching, Bowyer-Watson) are not modelled: their outputs are judged by the certified "
-                  "oracle wfb only. "
+    "level_note": "Marching-cubes and Bowyer-Watson index lists are not formulas of the parameters: their assembly is modelled (Mesh/GenIntern.v), "
+                  "the geometry (which cells, which triangles) is C09's / C20's; every output is judged by the certified oracle wfb. "
+                  "Retained results are re-read after later operations on the real Go values (CKeep, judged in Coq); meshes of thousands of vertices "
+                  "(block limits) are judged harness-side (copy of wfb). "
                   "Trusted: Coq kernel + vm_compute; hand-written model tied by differential correspondence only",
     "technique": "Coq proof (per-operation closure lemmas, induction over histories) + vm_compute correspondence check + "
                  "certified boolean oracle on every implementation output",
     "design_ref": "DESIGN.md §3.2, §4 C02, §5 #2",
     "n_quick": 1000, "n_thorough": 10000,
-    "rule": "17 fixed operation cases and 112 fixed generator cases (per-element optional fields set on some elements only; corner counts; every path-driven generator on collinear, one-collinear, repeated-point, closed, backtracking and axis-aligned paths; stencils of 0-3 points; triangulation of repeated, coincident, collinear and lattice point sets); generator cases (at most 260 in the quick tier): "
+    "rule": "20 local operations once per run at a vertex count around a power of two (1023..12289; thorough ..65537) with the tail of the vertex array referenced or not; one history in 20 keeps the real mesh values of a branching history (3-7 operations on a base with spare slice capacity) and re-reads every retained value after every later operation; 22 fixed operation cases and 112 fixed generator cases (per-element optional fields set on some elements only; corner counts; every path-driven generator on collinear, one-collinear, repeated-point, closed, backtracking and axis-aligned paths; stencils of 0-3 points; triangulation of repeated, coincident, collinear and lattice point sets); generator cases (at most 260 in the quick tier): "
             "21 generators (UV sphere welded/unwelded, hemisphere, cube welded/quads, quad, circle, cylinder with/without "
             "caps and UVs, cone, extrude polygon/circle/line/shape/closed shape, repeat circle/line/Fibonacci of 5 base "
             "meshes, marching sphere/box/line through Field.March and the sequential/parallel canvas, Bowyer-Watson), a "
             "rotating window of the exhaustive counts 0..8 (thorough: all of 0..12) plus random parameterisations incl. "
             "degenerate and negative counts; the rest: operation cases as for C03 (random well-formed meshes of 6 "
-            "topologies, 27 operations, histories of depth 1-4, composition laws); distinct by input; non-trivial = the "
+            "topologies, 29 operations, histories of depth 1-4, composition laws); distinct by input; non-trivial = the "
             "operation or generator returned a mesh with at least one index",
     "trusted": ["generator outputs are projected to (topology, indices, attribute names and lengths, materials); values "
                 "are irrelevant to well-formedness",
